@@ -526,8 +526,11 @@ def check_sweep_and_cycle(P, ctx):
                         ok = False
             ctx.check(ok, rule, fname, site(fn, sn['line']), 'a sweep outside teardown is dominated by a mark phase on the same collector, with no registration in between')
     ctx.floor(rule, 2)
+    check_marks_cleared(P, ctx, 'C01.marks-cleared')
+
+
+def check_marks_cleared(P, ctx, rule):
     # marks cleared after sweep; new entries unmarked
-    rule = 'C01.marks-cleared'
     fn = P.fn('GC_Sweep')
     g = P.cfg(fn)
     clears = [n for n in g.live() if n['kind'] == 'stmt' and ir.top_nocast(n['expr'])[0] == 'assign' and util.field_name(ir.top_nocast(n['expr'])[2]) == 'marked' and
